@@ -1,10 +1,12 @@
 /-
-C10 — a proved counter-example: the full-strength reading "an untrusted peer's request headers
-(ALL of them) cannot influence what is sent upstream" fails on the tree as it is, in one corner:
-when an earlier handler stored nil under a forwarding field ("omit"), the peer's
-`Connection: X-Forwarded-For` deletes that nil entry before `addForwardedHeaders` looks at it, so
-the field is sent after all.  (The value is still derived from the connection.)
-The protocol line of the witness is exported in `Driver.witnessLines`.
+C10 — a model fact about a corner that is STRONGER than the property (not a finding): the reading
+"an untrusted peer's request headers — ALL of them, `Connection` included — cannot influence what
+is sent upstream" fails in one corner: when an earlier handler stored nil under a forwarding field
+("omit"), the peer's `Connection: X-Forwarded-For` deletes that nil entry before
+`addForwardedHeaders` looks at it, so the field is sent after all.  The value sent is still the
+connection's and no forwarding header is involved, so C10 itself holds there
+(`untrusted_forwarding_headers_irrelevant`, `untrusted_sent_values_are_connection_values`);
+the harness counts the corner as a histogram tag only.
 -/
 import CaddyModel.C10.Lemmas
 
